@@ -21,8 +21,8 @@ if $APPLIES; then
   DEMO_WITH=$(run_demo); TAIL_WITH="$(tail -2 /tmp/$$.demo | tr '\n' ' ' | cut -c1-300)"
   SUITE=$(PYTHONPATH="$WT/src" /venv/bin/python -m pytest -q -p no:cacheprovider --timeout=900 tests 2>&1 | tail -1)
   cd "$HERE"
-  CHECK_OUT=$(VF_REPO="$WT" VF_JOBS=4 ./check "$PROP" --tier quick 2>&1 | grep -E "^(VIOLATION|UNDECIDED|INTERNAL|C[0-9]+ tier)" | head -8)
-  CHECK_EXIT=$(VF_REPO="$WT" VF_JOBS=4 ./check "$PROP" --tier quick >/dev/null 2>&1; echo $?)
+  VF_REPO="$WT" VF_JOBS=4 ./check "$PROP" --tier quick >/tmp/$$.check 2>&1; CHECK_EXIT=$?
+  CHECK_OUT=$(grep -E "^(VIOLATION|UNDECIDED|INTERNAL|C[0-9]+ tier)" /tmp/$$.check | head -8); rm -f /tmp/$$.check
 else
   DEMO_WITH=-1; TAIL_WITH=""; SUITE="patch does not apply to /repo HEAD"; CHECK_OUT=""; CHECK_EXIT=-1
 fi
